@@ -86,10 +86,18 @@ func symRead(fr *frame, elems []value, idx value) value {
 	if !scalar {
 		return elems[int(concInt(s, "index"))]
 	}
+	// compare on the narrowest width the index provably fits in
+	it := s.t
+	if eff := it.W - smt.LeadingZeros(it); eff < it.W && !kindSigned(s.k) {
+		if eff < 1 {
+			eff = 1
+		}
+		it = b.Extract(it, eff-1, 0)
+	}
 	acc, _ := termOf(b, elems[n-1])
 	for j := n - 2; j >= 0; j-- {
 		tj, _ := termOf(b, elems[j])
-		acc = b.Ite(b.Eq(s.t, b.Const(s.t.W, uint64(j))), tj, acc)
+		acc = b.Ite(b.Eq(it, b.Const(it.W, uint64(j))), tj, acc)
 	}
 	return mkSV(acc, k)
 }
